@@ -207,6 +207,7 @@ def run(ctx):
                 proj_model=lambda i, o, mkey=mkey: o.get(mkey) if "driver_error" not in o else o)
     seen, nontrivial = set(), 0
     feats, outcomes, kinds, sizes = collections.Counter(), collections.Counter(), collections.Counter(), collections.Counter()
+    fivexx = collections.Counter()   # refusals answered as internal errors (not a C09 matter, reported for information)
     for inp in inputs:
         out = impl.get(inp["id"])
         if out is None:
@@ -218,6 +219,10 @@ def run(ctx):
         for sig, what in oracle(inp, out):
             ctx.violation(dict(sig, property="C09"), what, {"area": "txscript", "input": inp, "observed": out})
         kinds[inp["kind"]] += 1
+        for path in PATHS:
+            st = out.get(path, {}).get("status")
+            if isinstance(st, int) and st >= 500:
+                fivexx["%s/%s" % (path, inp["kind"])] += 1
         sizes[len(inp["postings"])] += 1
         d = out.get("direct", {})
         outcomes["ok" if "tx" in d else d.get("err", "?") + ":" + str(d.get("detail"))] += 1
@@ -240,6 +245,7 @@ def run(ctx):
                        "request with a repeated account, a repeated amount or a chain") % (12 if ctx.quick else 30)
     ctx.cov["samples"] = [{"input": i, "impl": {p: proj(impl.get(i["id"], {}).get(p)) for p in PATHS}} for i in inputs[:2]]
     ctx.cov["input_distribution"] = {"kinds": dict(kinds), "features_of_valid": dict(feats), "outcome_direct": dict(outcomes),
+                                     "refused_with_5xx": dict(fivexx),
                                      "postings_per_request": {str(k): v for k, v in sorted(sizes.items())}}
     ctx.assumptions += [
         "requests are submitted one at a time, never as dry runs (known engine defects on those paths are tracked under C02/C14/C16)",
